@@ -273,7 +273,7 @@ def setitem_case(ctx, alg, cfg, name):
     import numpy as np
     rng = ctx.rng
     canon = tuple(alg.canon2bin.values())
-    shape = rng.choice([(4,), (3,), (2, 3), (3, 4)])
+    shape = rng.choice([(4,), (3,), (2, 3), (3, 4), (2, 2), (3, 3), (2, 2, 2)])
     container = rng.choice(['ndarray', 'list'])
     kx = gen.random_subset(rng, canon, 4, 1)
     if rng.random() < 0.3:
@@ -320,6 +320,21 @@ def setitem_case(ctx, alg, cfg, name):
     if st != 'ok':
         if st == 'exc':
             ctx.note_raised(out, 'setitem')
+            if how in ('mv', 'raw', 'scalar-mv'):
+                # the same assignment on every coefficient array is accepted by numpy (the harness built the new values with exactly the
+                # shape of X[idx]): kingdon refusing it means the addressed entries cannot be assigned
+                try:
+                    for cj, nj in zip([np.array(v, dtype=float) for v in X.values()], newvals):
+                        cj[idx] = nj
+                    numpy_ok = True
+                except Exception:
+                    numpy_ok = False
+                if numpy_ok:
+                    ctx.count('setitem_cases')
+                    ctx.case(cid)
+                    ctx.violation('assignment through a multivector raised although every coefficient accepts it', cid, config=cfg, keys=list(kx),
+                                  shape=list(shape), container=container, index=idx_repr(idx), assigned_as=how,
+                                  error=f'{type(out).__name__}: {str(out)[:160]}')
         return
     if contracts.EVALS.get('MultiVector.__setitem__', 0) == n0:
         ctx.count('setitem_contract_not_reached')
